@@ -315,7 +315,7 @@ def r04_1(ctx, repo):
                               'kernel has no support guard before its '
                               'closed-form expression')
                 continue
-            names = scales + ['model_output']
+            names = scales + ['model_output', 'observations']
             base = {n: 'pos' for n in names}
             # valid input must not be rejected
             v = _sign_eval(gtest, base)
@@ -332,14 +332,18 @@ def r04_1(ctx, repo):
             if lognormal:
                 cases += [('model_output', 'zero'), ('model_output', 'neg')]
             else:
-                # the documented support of the model output is the whole
-                # real line: a non-positive prediction must not be rejected
-                for sg in ('zero', 'neg'):
+                # the documented support of the model output and of the
+                # observations is the whole real line: non-positive values
+                # must not be rejected
+                for var_, sg in (('model_output', 'zero'),
+                                 ('model_output', 'neg'),
+                                 ('observations', 'zero'),
+                                 ('observations', 'neg')):
                     env = dict(base)
-                    env['model_output'] = sg
+                    env[var_] = sg
                     v = _sign_eval(gtest, env)
-                    what = 'model_output %s 0' % (
-                        '=' if sg == 'zero' else '<')
+                    what = '%s %s 0' % (
+                        var_, '=' if sg == 'zero' else '<')
                     if v is False:
                         ctx.ok(rule, repo.loc(g, cls, m), construct,
                                'guard `%s` accepts %s' % (U(g.test), what))
